@@ -3,6 +3,7 @@ CONSTANTS
   NTs <- TraceNTs
   WyFix = TRUE
   AllowSpurious = TRUE
+  ThreadNames <- TraceThreadNames
 SPECIFICATION TraceSpec
 CHECK_DEADLOCK FALSE
 POSTCONDITION TraceAccepted
